@@ -254,16 +254,20 @@ def flushKeep (T : Tables) (kS kC : Bool) (cache : List Entry) : List Entry :=
 def copyKeep (T : Tables) (kS kC : Bool) (cache : List Entry) : List Entry :=
   cache.filter fun e => (kS && T.copyKeepSssr.contains e.key) || (kC && T.copyKeepComponents.contains e.key)
 
-/-- a memoised read: hit returns the stored (possibly stale) value; miss computes the value now — poisoned if one
-of the memoised values it is computed from is stale — and also stores the dependencies that `obs` shows were populated -/
+/-- the entry a miss on `x` stores: the value computed now, poisoned iff one of the memoised values it is computed from
+(its dependency closure) is present and stale -/
+def newEntry (T : Tables) (c : Core) (x : String) : Entry :=
+  ⟨x, viewOf (kindOf x) c, c.cache.any fun e => (closure T.keyReads x).contains e.key && !e.fresh c⟩
+
+/-- a memoised read: hit returns the stored (possibly stale) value; miss computes the value now and also stores the
+dependencies that `obs` shows were populated -/
 def readKey (T : Tables) (o : Obj) (k : String) (obs : List String) (optional : Bool) : Obj :=
   if hasKey o.toCore k then o
   else
     let deps := closure T.keyReads k
-    let bad := o.cache.any fun e => deps.contains e.key && !e.fresh o.toCore
     let self := if optional && !obs.contains k then [] else [k]
     let newKeys := self ++ deps.filter fun d => obs.contains d && !hasKey o.toCore d
-    { o with cache := o.cache ++ newKeys.map fun d => ⟨d, viewOf (kindOf d) o.toCore, bad⟩ }
+    { o with cache := o.cache ++ newKeys.map (newEntry T o.toCore) }
 
 def unionNat (a b : List Nat) : List Nat := b.foldl (fun acc x => if acc.contains x then acc else acc ++ [x]) a
 
@@ -499,6 +503,12 @@ def copyObj (T : Tables) (o : Obj) (vecs : List (Int × Int)) (kS kC : Bool) : O
 def restrictAdj (adj : List (Nat × List (Nat × Bond))) (keep : List Nat) : List (Nat × List (Nat × Bond)) :=
   (adj.filter fun p => keep.contains p.1).map fun p => (p.1, p.2.filter fun kb => keep.contains kb.1)
 
+/-- qualified name of a method `substructure` calls on the object it creates -/
+def subFq (f : String) : String :=
+  if f == "fix_stereo" then "MoleculeStereo.fix_stereo"
+  else if f == "fix_structure" then "MoleculeContainer.fix_structure"
+  else if f == "calc_labels" then "MoleculeContainer.calc_labels" else f
+
 def step (T : Tables) (w : World) (op : Op) (obs : List String) : Out :=
   let i := op.target
   match w.objs[i]? with
@@ -558,8 +568,7 @@ def step (T : Tables) (w : World) (op : Op) (obs : List String) : Out :=
         let r := T.subCalls.foldl (fun (acc : Out) f =>
           match acc.err, acc.w.objs[j]? with
           | none, some s =>
-              let fq := if f == "fix_stereo" then "MoleculeStereo.fix_stereo" else s!"MoleculeContainer.{f}"
-              let r := runFn T acc.w j s { obs := obs } fq [("recalculate_hydrogens", recalc)]
+              let r := runFn T acc.w j s { obs := obs } (subFq f) [("recalculate_hydrogens", recalc)]
               { r with recalc := unionNat acc.recalc r.recalc }
           | _, _ => acc) { w := w1 }
         { r with created := some j }
